@@ -148,6 +148,17 @@ CLAIMED = {
         ref='DESIGN.md §6 C05', note='groups with a captured scope follows the reading "p = CS.m with a non-empty local part m without dots". The restore theorems speak about the captured scope/group '
              'fields; that the CS/CG variables carry the same value is by the correspondence (CS CG LOCAL-SIGNALS LOCAL-SCOPES probed before, inside, after).',
         technique='Lean 4 proof (operator-level denotation and restore laws) + correspondence against a set-comprehension oracle'),
+    'C17': dict(
+        text='Balance is compositional: for an arbitrary evaluator of the body each context-establishing operator returns with the component it manages '
+             'restored - let_balanced, call_balanced (environment), inscope_balanced, ingroup_balanced, allscopes_balanced (captured scope/group), '
+             'reval_balanced (trace positions and the saved-position stack), scan_balanced (find/g, whenever) - and balanced_history lifts a balanced '
+             'top-level evaluator to every history by induction; define_global_at_top; run_fresh / run_fresh_context (the state Wal.run starts from '
+             'is a function of the loaded traces alone, everything else as on a fresh interpreter, every trace at index 0). Correspondence: histories '
+             'of nested constructs with context probes after every evaluation, Wal.run after a history vs a new interpreter; keyword bindings for '
+             'all subsets of pre-defined/fresh names (implementation-side oracle).',
+        ref='DESIGN.md §6 C17', note='The hypothesis Balanced of balanced_history is discharged per operator, not for the whole evaluator (global induction over all operators not done); '
+             'end-to-end balance is observed by the correspondence. Keyword bindings of Wal.eval are Python glue: covered by the oracle only, not modelled.',
+        technique='Lean 4 proof (per-operator restore laws + induction over histories) + correspondence and fresh-interpreter differential'),
 }
 
 REASONS_PENDING = 'check under construction in this round (DESIGN.md §13 build order); not a claim of inapplicability'
